@@ -281,6 +281,7 @@ ssize_t _whawty_write_data(int sock, const void* data, size_t len, int timeout)
       return ret;
     }
 
+    errno = 0; // write() does not touch errno on success, see check below
     ssize_t nwritten = write(sock, (void*)(data + offset), len - offset);
     if(nwritten < 0 || (nwritten == 0 && errno != EINTR)) {
       return offset;
@@ -367,6 +368,7 @@ ssize_t _whawty_read_data(int sock, const void* data, size_t len, int timeout)
       return ret;
     }
 
+    errno = 0; // read() does not touch errno when it returns 0 (EOF), see check below
     ssize_t nread = read(sock, (void*)(data + offset), len - offset);
     if(nread < 0 || (nread == 0 && errno != EINTR)) {
       return offset;
